@@ -184,6 +184,23 @@ func analyse(s string) (r result) {
 		r.class = "accepted/check-digits-agree,not-judged-well-formed"
 	}
 	// key seed routes
+	if !refmrz.InAlphabet(s) && acc && pacc && pw != nil {
+		// a zone with a symbol outside the alphabet that the library nevertheless ACCEPTS on both routes: no reference
+		// value exists, but "all ways of supplying the same document data open the same chip" still applies - the
+		// routes must agree with each other
+		var pf *password.Password
+		var ferr, eerr error
+		var re string
+		if pv, _ := vc.Guard(func() {
+			pf, ferr = password.NewPasswordMrzi(dec.DocumentNumber, dec.DateOfBirth, dec.DateOfExpiry)
+			re, eerr = dec.EncodeMrzi()
+		}); pv != nil {
+			return fail("panic/key-seed-routes", fmt.Sprintf("NewPasswordMrzi/EncodeMrzi on the decoded fields of %q panicked: %v", s, pv))
+		}
+		if ferr == nil && eerr == nil && pf != nil && (pw.Password != pf.Password || pf.Password != re) {
+			return fail(lay+"/keyseed/routes-disagree-on-accepted-zone-with-foreign-symbol", fmt.Sprintf("zone %q is accepted, but the key seed string is %q from the full MRZ, %q from the decoded fields and %q re-encoded", s, pw.Password, pf.Password, re))
+		}
+	}
 	if !refmrz.InAlphabet(s) || !p.KeyFieldsNonEmpty() {
 		r.class += ",key-seed-not-judged"
 		return r
@@ -647,6 +664,29 @@ func run(c *vc.Ctx) {
 				}
 				m[i] = b.zone[i]
 			}
+		}
+	}
+
+	// (3b) the blank, the one foreign symbol the library's own decoded fields contain (fillers become blanks): every
+	// position, in both tiers
+	{
+		secB := "blank-substitution"
+		c.SecBound(secB, "every base x every position replaced by a blank (the decoded-field spelling of the filler)")
+		for _, b := range bases {
+			if !c.Mine() {
+				continue
+			}
+			m := []byte(b.zone)
+			for i := range m {
+				if m[i] == ' ' {
+					continue
+				}
+				m[i] = ' '
+				rep(secB, string(m))
+				m[i] = b.zone[i]
+			}
+			// and every filler at once
+			rep(secB, strings.ReplaceAll(b.zone, "<", " "))
 		}
 	}
 
